@@ -129,6 +129,19 @@ static Bytes aod_image(Rng& r, bool T, int kind) {
   return Bytes(v.begin(), v.end());
 }
 
+// ------------------------------------------------------------------ legacy Tuple image: serial version 1, sketch type 5 (same field layout)
+static Bytes tdbl_legacy_image(Rng& r, bool, bool est) {
+  const uint16_t sh = upd_dbl_tuple::builder().build().compact().get_seed_hash();
+  const uint64_t MAXT = theta_constants::MAX_THETA, theta = est ? MAXT / 3 : MAXT;
+  std::set<uint64_t> keys;
+  const size_t n = 3 + r.below(20);
+  while (keys.size() < n) { uint64_t h = (r.next() >> 1) % theta; if (h) keys.insert(h); }
+  Wr w; w.u8(est ? 3 : 2).u8(1).u8(9).u8(5).u8(0).u8(0x1a).u16(sh).u32(uint32_t(keys.size())).u32(0);
+  if (est) w.u64(theta);
+  for (auto kx : keys) w.u64(kx).f64(double(kx % 1000) * 0.5);
+  return w.b;
+}
+
 // ------------------------------------------------------------------ registration
 std::vector<Target> targets() {
   std::vector<Target> t;
@@ -145,6 +158,12 @@ std::vector<Target> targets() {
     t.push_back({"tuple_double", k.name, "stream", b1, stream_path(tdbl_stream)});
     t.push_back({"tuple_string", k.name, "stream", b2, stream_path(tstr_stream)});
     t.push_back({"array_of_doubles", k.name, "stream", b3, stream_path(aod_stream)});
+  }
+  for (int est = 0; est < 2; ++est) {
+    BuildFn b = [est](Rng& r, bool T) { return tdbl_legacy_image(r, T, est != 0); };
+    const char* name = est ? "legacy_v1_type5_estimation" : "legacy_v1_type5_exact";
+    t.push_back({"tuple_double", name, "bytes", b, bytes_path(tdbl_bytes)});
+    t.push_back({"tuple_double", name, "stream", b, stream_path(tdbl_stream)});
   }
   return t;
 }
